@@ -58,7 +58,7 @@ def para_content(nodes):
     return False
 
 
-def expected_blocks(pkg, keep_empty):
+def expected_blocks(pkg, keep_empty, extra_tags=None):
     """(tag, text) of every paragraph block the property says must be in the output, in reading order (no lists, no notes)"""
     from mammoth.docx.xmlparser import XmlElement
     out = []
@@ -72,7 +72,7 @@ def expected_blocks(pkg, keep_empty):
                 lt = livetext.LiveText(pkg)
                 text = lt.render(lt.blocks([n]), {"refs": [], "crefs": []})
                 if keep_empty or para_content(n.children):
-                    out.append((HEADINGS.get(sid, "p"), B.sanitize(text)))
+                    out.append(((extra_tags or {}).get(sid) or HEADINGS.get(sid, "p"), B.sanitize(text)))
             elif n.name == "w:tbl":
                 for tr in n.children:
                     if isinstance(tr, XmlElement) and tr.name == "w:tr":
@@ -91,7 +91,7 @@ def expected_blocks(pkg, keep_empty):
 def html_blocks(forest, out):
     for n in forest:
         if "name" in n:
-            if n["name"] in ("p", "h1", "h2", "h3", "h4", "h5", "h6"):
+            if n["name"] in ("p", "h1", "h2", "h3", "h4", "h5", "h6", "pre"):
                 out.append((n["name"], O.text_of_parsed(n["children"])))
             else:
                 html_blocks(n["children"], out)
@@ -114,28 +114,42 @@ def api_stream(ctx):
     terms, metas = [], []
     dist = {"documents": 0, "keep_empty": 0, "empty_paragraphs": 0}
     for i in range(n):
+        # every third document: paragraphs mapped to a collapsible path WITH a separator (adjacent ones merge, joined by the separator)
+        sep = (i % 3 == 1)
         g = gen_xml.XGen(rng, hostile=0.1, numbering=False, notes=False, comments=False, textboxes=False, deleted=False, fields=False,
-                         anomalies=0.1, images=(i % 3 == 0))
+                         anomalies=0.1, images=(i % 3 == 0), tables=not sep)
         # make emptiness common: empty runs, runs with empty text, empty links, empty paragraphs
         g.text = (lambda orig: (lambda: "" if rng.random() < 0.45 else orig()))(g.text)
         pkg = g.package(rng.randint(1, 6))
         for t in list(pkg.linked):
             pkg.linked[t] = ("error", None)
         keep = rng.random() < 0.5
-        opts = {"style_map": None, "include_default_style_map": True, "include_embedded_style_map": True,
+        opts = {"style_map": "p.Quote => pre:separator('|')\np.Normal => pre:separator('|')" if sep else None,
+                "include_default_style_map": True, "include_embedded_style_map": True,
                 "ignore_empty_paragraphs": not keep, "id_prefix": None, "conv": "no_open"}
         data, parts = B.build(pkg)
         html, raw = A.run_impl(data, opts, None)
         ctx.count()
         dist["documents"] += 1
         dist["keep_empty"] += keep
+        dist["with_separator_map"] = dist.get("with_separator_map", 0) + sep
         meta = {"package": gen_xml.pkg_json(pkg), "options": opts, "index": i}
         bad = None
         if isinstance(html, Exception):
             bad = "conversion raised %r" % html
         else:
             forest = O.strict_parse(html.value)
-            exp = expected_blocks(pkg, keep)
+            exp = expected_blocks(pkg, keep, {"Quote": "pre", "Normal": "pre"} if sep else {})
+            if sep:
+                # consecutive pre paragraphs are one element, their texts joined by the separator; an EMPTY paragraph that is
+                # dropped contributes nothing, not even a separator
+                merged = []
+                for tg, tx in exp:
+                    if tg == "pre" and merged and merged[-1][0] == "pre":
+                        merged[-1] = ("pre", merged[-1][1] + "|" + tx)
+                    else:
+                        merged.append((tg, tx))
+                exp = merged
             got = html_blocks(forest, [])
             dist["empty_paragraphs"] += sum(1 for _, tx in exp if tx == "")
             if got != exp:
@@ -143,7 +157,7 @@ def api_stream(ctx):
                        "a paragraph with content was removed, or an empty one kept") + ": expected %s, got %s" % (exp[:6], got[:6])
             else:
                 for e in empty_elements(forest, []):
-                    ok = e["name"] in STRUCTURE or (e["name"] == "a" and "id" in e["attrs"]) or (keep and e["name"] in ("p", "h1", "h2"))
+                    ok = e["name"] in STRUCTURE or (e["name"] == "a" and "id" in e["attrs"]) or (keep and e["name"] in ("p", "h1", "h2", "pre"))
                     if not ok:
                         bad = "the output contains an empty <%s> element" % e["name"]
                         break
